@@ -119,6 +119,8 @@ pub mod ax {
         ensures (#[trigger] string_of(v))@ == v;
     pub broadcast axiom fn borrowed_string_key<V>(m: Map<String, V>, k: &str)
         ensures #[trigger] vstd::std_specs::hash::contains_borrowed_key(m, k) == m.contains_key(string_of(k@));
+    pub broadcast axiom fn borrowed_string_value<V>(m: Map<String, V>, k: &str, v: V)
+        ensures #[trigger] vstd::std_specs::hash::maps_borrowed_key_to_value(m, k, v) == (m.contains_key(string_of(k@)) && m[string_of(k@)] == v);
     // TRUSTED: &str compares by content
     pub broadcast axiom fn str_peq(a: &str, b: &str)
         ensures #[trigger] super::stdspec::peq::<&str>(a, b) <==> a@ == b@;
@@ -132,6 +134,26 @@ pub mod ax {
     // TRUSTED: every char takes at least one byte in UTF-8.
     pub broadcast axiom fn byte_len_at_least_chars(v: Seq<char>)
         ensures v.len() <= #[trigger] super::stdspec::byte_len(v);
+//# section: ax-split-once
+    // TRUSTED: splitting at a char: None iff the char does not occur; otherwise the text before the FIRST occurrence and the text after it (std docs).
+    pub broadcast axiom fn split_once_char(s: Seq<char>, c: char)
+        ensures
+            (#[trigger] super::stdspec::split_once_spec::<char>(s, c)) is None <==> !s.contains(c),
+            super::stdspec::split_once_spec::<char>(s, c) is Some ==> {
+                let a = (super::stdspec::split_once_spec::<char>(s, c)->0).0;
+                let b = (super::stdspec::split_once_spec::<char>(s, c)->0).1;
+                s == a + seq![c] + b && !a.contains(c)
+            };
+//# section: ax-rsplit-once
+    // TRUSTED: rsplit_once(char) splits at the LAST occurrence.
+    pub broadcast axiom fn rsplit_once_char(s: Seq<char>, c: char)
+        ensures
+            (#[trigger] super::stdspec::rsplit_once_spec::<char>(s, c)) is None <==> !s.contains(c),
+            super::stdspec::rsplit_once_spec::<char>(s, c) is Some ==> {
+                let a = (super::stdspec::rsplit_once_spec::<char>(s, c)->0).0;
+                let b = (super::stdspec::rsplit_once_spec::<char>(s, c)->0).1;
+                s == a + seq![c] + b && !b.contains(c)
+            };
 //# section: ax-end
 }
 //# section: stdspec-begin
@@ -170,6 +192,10 @@ pub mod stdspec {
     // TRUSTED: String::len is the UTF-8 byte length (std docs).
     pub assume_specification [String::len] (s: &String) -> (n: usize)
         ensures n as nat == byte_len(s@);
+//# section: stdspec-as-bytes
+    // TRUSTED: String::as_bytes is the UTF-8 encoding (only its length is specified here).
+    pub assume_specification [String::as_bytes] (s: &String) -> (b: &[u8])
+        ensures b@.len() == byte_len(s@);
 //# section: stdspec-contains
     // `peq(a, b)`: the result of `a == b` through the type's PartialEq impl.
     pub uninterp spec fn peq<T>(a: T, b: T) -> bool;
@@ -222,6 +248,44 @@ pub mod stdspec {
     pub struct ExAssertKind(core::panicking::AssertKind);
     pub assume_specification<T: core::fmt::Debug + ?Sized, U: core::fmt::Debug + ?Sized> [core::panicking::assert_failed] (k: core::panicking::AssertKind, a: &T, b: &U, m: Option<core::fmt::Arguments<'_>>) -> !
         requires false; // [label: assertion-holds]
+//# section: stdspec-split-once
+    // `split_once_spec(s, p)`: the result of str::split_once as character sequences (None: the pattern does not occur)
+    pub uninterp spec fn split_once_spec<P>(s: Seq<char>, p: P) -> Option<(Seq<char>, Seq<char>)>;
+    // TRUSTED: str::split_once is a function of the text and the pattern.
+    #[verifier::allow(undeclared_external_trait)]
+    pub assume_specification<'a, P: core::str::pattern::Pattern> [str::split_once::<P>] (s: &'a str, p: P) -> (r: Option<(&'a str, &'a str)>)
+        ensures
+            r is Some <==> split_once_spec::<P>(s@, p) is Some,
+            r is Some ==> (r->0).0@ == (split_once_spec::<P>(s@, p)->0).0 && (r->0).1@ == (split_once_spec::<P>(s@, p)->0).1;
+//# section: stdspec-option-combinators
+    // TRUSTED: Option / Result combinators (std docs), stated through the closure's own contract.
+    pub assume_specification<T, F: FnOnce() -> Option<T>> [Option::<T>::or_else::<F>] (o: Option<T>, f: F) -> (r: Option<T>)
+        requires o is None ==> f.requires(()),
+        ensures o is Some ==> r == o, o is None ==> f.ensures((), r);
+    pub assume_specification<T> [Option::<T>::or] (o: Option<T>, b: Option<T>) -> (r: Option<T>)
+        ensures o is Some ==> r == o, o is None ==> r == b;
+    pub assume_specification<T, P: FnOnce(&T) -> bool> [Option::<T>::filter::<P>] (o: Option<T>, p: P) -> (r: Option<T>)
+        requires o is Some ==> p.requires((&o->0,)),
+        ensures o is None ==> r is None, o is Some ==> (p.ensures((&o->0,), true) ==> r == o) && (p.ensures((&o->0,), false) ==> r is None), r is Some ==> r == o;
+    pub assume_specification<T, F: FnOnce(T) -> bool> [Option::<T>::is_some_and] (o: Option<T>, f: F) -> (r: bool)
+        requires o is Some ==> f.requires((o->0,)),
+        ensures o is None ==> !r, o is Some ==> f.ensures((o->0,), r);
+    pub assume_specification<T, U, F: FnOnce(T) -> U> [Option::<T>::map_or::<U, F>] (o: Option<T>, d: U, f: F) -> (r: U)
+        requires o is Some ==> f.requires((o->0,)),
+        ensures o is None ==> r == d, o is Some ==> f.ensures((o->0,), r);
+    pub assume_specification<T, E, U, F: FnOnce(T) -> Result<U, E>> [Result::<T, E>::and_then::<U, F>] (x: Result<T, E>, f: F) -> (r: Result<U, E>)
+        requires x is Ok ==> f.requires((x->Ok_0,)),
+        ensures x is Err ==> r is Err && r->Err_0 == x->Err_0, x is Ok ==> f.ensures((x->Ok_0,), r);
+    pub assume_specification<T, E> [Result::<T, E>::unwrap_or] (x: Result<T, E>, d: T) -> (r: T)
+        ensures x is Ok ==> r == x->Ok_0, x is Err ==> r == d;
+//# section: stdspec-rsplit-once
+    pub uninterp spec fn rsplit_once_spec<P>(s: Seq<char>, p: P) -> Option<(Seq<char>, Seq<char>)>;
+    #[verifier::allow(undeclared_external_trait)]
+    pub assume_specification<'a, P: core::str::pattern::Pattern> [str::rsplit_once::<P>] (s: &'a str, p: P) -> (r: Option<(&'a str, &'a str)>)
+        where for<'b> <P as core::str::pattern::Pattern>::Searcher<'b>: core::str::pattern::ReverseSearcher<'b>
+        ensures
+            r is Some <==> rsplit_once_spec::<P>(s@, p) is Some,
+            r is Some ==> (r->0).0@ == (rsplit_once_spec::<P>(s@, p)->0).0 && (r->0).1@ == (rsplit_once_spec::<P>(s@, p)->0).1;
 //# section: stdspec-drop
     pub assume_specification<T> [core::mem::drop::<T>] (x: T);
 //# section: stdspec-end
